@@ -386,6 +386,12 @@ impl MultiState {
             self.zombie_lines_count += kept;
         }
 
+        // Zombie lines that this draw pushed out of the top of the terminal cannot be erased any
+        // more (not even in part: what is left of them on the terminal stays as it is)
+        if !self.draw_target.reaches_above(self.zombie_lines_count) {
+            self.zombie_lines_count = VisualLines::default();
+        }
+
         drawable
     }
 
